@@ -128,6 +128,33 @@ def run(tier):
                     chk.sample({"features": feat, "cost_row": case["cv"][0][0], "out": {kk: (vv[0][0] if isinstance(vv, list) else vv) for kk, vv in out.items()}})
             except Exception as exc:  # pylint: disable=broad-except
                 chk.violation("total", dict(method=method, exception=type(exc).__name__), {"features": feat, "exception": repr(exc)[:300]}, f"{method} raised on {feat}")
+        # interval bounds WITH regularisation (quantile 1): against the same step without regularisation it can only widen
+        # the interval of a pixel and never loses a bound (pixels without any cost have NaN bounds in both runs)
+        try:
+            ib = {"confidence_method": "interval_bounds", "possibility_threshold": thr}
+            reg = dict(ib, regularization=True, ambiguity_threshold=float([0.4, 0.6, 0.95][k % 3]), ambiguity_kernel_size=int([1, 3, 5][k % 3]),
+                       vertical_depth=int(k % 3), quantile_regularization=1.0)
+            outs = []
+            for c2 in (ib, reg):
+                cvx = build.make_cv(costs, dmin=dmin, subpix=s, vm=vm)
+                _, cvx = cvc.AbstractCostVolumeConfidence(confidence_method="ambiguity", eta_max=eta_max, eta_step=eta_step).confidence_prediction(xr.Dataset(), None, None, cvx)
+                _, cvx = cvc.AbstractCostVolumeConfidence(**c2).confidence_prediction(xr.Dataset(), None, None, cvx)
+                nm = list(map(str, cvx.coords["indicator"].data))
+                outs.append((cvx["confidence_measure"].data[:, :, nm.index("confidence_from_interval_bounds_inf")],
+                             cvx["confidence_measure"].data[:, :, nm.index("confidence_from_interval_bounds_sup")],
+                             cvx["confidence_measure"].data[:, :, 0], cvx["validity_mask"].data.copy()))
+            from vp.project import enc_rank
+            enc = enc_rank(np.stack([outs[0][0], outs[0][1], outs[1][0], outs[1][1]]))
+            n += 1
+            cid = f"c{n}"
+            cases.append({"id": cid, "step": "regularize", "rows": rows, "cols": cols, "inf0": enc[0], "sup0": enc[1], "inf1": enc[2], "sup1": enc[3],
+                          "vm0": enc_int(outs[0][3]), "vm1": enc_int(outs[1][3]), "strict": False,
+                          "frame_other": bool(same_bits(outs[0][2], outs[1][2]))})
+            meta[cid] = {"method": "interval_bounds", "regularization": True, "threshold": thr}
+            chk.count(("ibreg", rows, cols, nd, k))
+        except Exception as exc:  # pylint: disable=broad-except
+            chk.violation("total", dict(method="interval_bounds", exception=type(exc).__name__), {"regularization": True, "exception": repr(exc)[:300]},
+                          f"interval_bounds with regularization raised: {exc!r}")
         # std_intensity on an integer image
         win = int([3, 5][k % 2])
         ir, ic = win + int(rng.randint(0, 3)), win + int(rng.randint(1, 5))
